@@ -1,21 +1,147 @@
-(* C05 — documented syntax is read (parser side).
-   The print-parse round trip (formatting preserves meaning, is idempotent) is assembled with
-   the printer model elsewhere; on every run it is checked at implementation level by the C05
-   correspondence (parse(format s) field by field, format(format s) = format s).
+(* C05 — documented syntax is read; formatting preserves meaning and is idempotent.
 
-   C05_grammar_accepted_partial covers these constructs of doc/syntax.md (Model/DocGrammar.v,
-   where every transcription choice is listed): ledger-file structure, vertical-space
-   (sp* new-line), new-line including <EOF> for the last line, top-level comments (all five
-   prefixes, blocks of lines), include, apply tag (key, key: value, key:: expr),
-   end apply tag, account and commodity declarations with note / alias / comment
-   sub-directives, LF and CRLF line ends, any Unicode text in names and comments.
-   NOT covered (checked by the correspondence run only, on texts produced by the grammar
-   generator of harness/src/pgen.rs): transaction, posting, metadata, value expressions,
-   lot / cost / balance assertion. *)
+   PRINT-PARSE ROUND TRIP (printer model Model/Display.v, parser model Model/Parse*.v, for every
+   display-width oracle `width`): covered constructs = ALL constructs of the syntax tree:
+   numeric literal in context, amount, value expression (parentheses, + - * / chains in
+   left-fold normal form, unary minus), lot price {..} / {{..}}, lot date, lot note, cost @ / @@,
+   posting line (indent, clear mark, account, padding, amount, lot, cost, balance assertion,
+   metadata lines), metadata (comment / word tags / key: value / key:: expr), transaction
+   header (date, effective date, clear mark, code, payee), whole transaction, top-level
+   comment, account / commodity declarations with comment / note / alias / format
+   sub-directives, apply tag, end apply tag, include, and the entry iterator with the blank
+   line that `format` puts after every entry.
+   The trees on which the round trip holds are the ones satisfying `wf_entry`
+   (Model/RoundTripSpec.v, one executable boolean per construct); `same_meaning` is equality up
+   to the number-format flag of numbers whose integer part has fewer than four digits.
+   C05_parser_image_wf_partial discharges `wf_entry` for what the parser returns, EXCEPT for
+   one non-local corner, an explicit hypothesis: a transaction without code whose payee starts
+   with `(` (read when no `)` follows anywhere in the rest of the text; `entry_open_paren`).
+
+   DOCUMENTED GRAMMAR ACCEPTED: C05_grammar_accepted_partial covers these constructs of
+   doc/syntax.md (Model/DocGrammar.v, where every transcription choice is listed):
+   ledger-file structure, vertical-space (sp* new-line), new-line including <EOF> for the last
+   line, top-level comments (all five prefixes, blocks of lines), include, apply tag (key,
+   key: value, key:: expr), end apply tag, account and commodity declarations with note /
+   alias / comment sub-directives, LF and CRLF line ends, any Unicode text in names and
+   comments.  NOT covered by the acceptance theorem (checked by the correspondence run only, on
+   texts produced by the grammar generator of harness/src/pgen.rs): transaction, posting,
+   metadata, value expressions, lot / cost / balance assertion written with arbitrary
+   horizontal white space (their printed, canonical forms ARE accepted: that is the round
+   trip). *)
 From Coq Require Import List NArith.
-From Okv Require Import Model.ParseLedger Model.DocGrammar Proofs.DocAccept.
+From Okv Require Import Model.Lit Model.Syntax Model.Comb Model.ParseExpr Model.ParseMeta Model.ParsePosting
+  Model.ParseTxn Model.ParseLedger Model.Display Model.DocGrammar Model.RoundTripSpec
+  Proofs.DocAccept Proofs.RoundTripNum Proofs.RoundTripExpr Proofs.RoundTripLot Proofs.RoundTripMeta
+  Proofs.RoundTripPosting Proofs.RoundTripTxn Proofs.RoundTripDirective Proofs.RoundTripSame
+  Proofs.RoundTripLedger.
+Import ListNotations.
 
 Theorem C05_grammar_accepted_partial : forall s : list N,
   In_doc_grammar s -> exists es, parse_ledger s = LOk es.
 Proof. exact doc_grammar_accepted. Qed.
 Print Assumptions C05_grammar_accepted_partial.
+
+(* ---- the round trip, construct by construct ---- *)
+Theorem C05_rt_number : forall d k, wf_num d = true -> starts_not is_decimal_char k ->
+  exists d', pretty_decimal (show d ++ k) = POk d' k /\ same_num d d'.
+Proof. exact pretty_decimal_show. Qed.
+Print Assumptions C05_rt_number.
+
+Theorem C05_rt_date : forall d k, wf_date d = true -> starts_not Comb.is_digit k ->
+  ParseExpr.date (fmt_date d ++ k) = POk d k.
+Proof. exact date_fmt. Qed.
+Print Assumptions C05_rt_date.
+
+Theorem C05_rt_amount : forall a k, wf_amount a = true -> follow_amount a k ->
+  exists a', amount (fst (fmt_amount a) ++ k) = POk a' (rest_amount a k) /\ same_amount a a'.
+Proof. exact amount_fmt. Qed.
+Print Assumptions C05_rt_amount.
+
+Theorem C05_rt_value_expr : forall fuel v k,
+  wf_vexpr v = true -> follow_v v k -> (length (show_vexpr v) <= fuel)%nat ->
+  exists v', value_expr fuel (show_vexpr v ++ k) = POk v' (rest_vexpr v k) /\ same_v v v'.
+Proof. exact value_expr_fmt. Qed.
+Print Assumptions C05_rt_value_expr.
+
+Theorem C05_rt_lot : forall fuel l k, wf_lot l = true -> starts_not is_lot_open (skip_sp k) ->
+  (length (print_lot l) <= fuel)%nat ->
+  exists l' psp, lot fuel (print_lot l ++ k) = POk (l', psp) (skip_sp k) /\ same_lot l l'.
+Proof. exact lot_fmt. Qed.
+Print Assumptions C05_rt_lot.
+
+Theorem C05_rt_posting_amount : forall fuel pa k,
+  wf_posting_amount pa = true -> follow_pa k -> (length (print_pa pa) <= fuel)%nat ->
+  exists pa' sps, posting_amount fuel (print_pa pa ++ k) = POk (pa', sps) (rest_pa pa k) /\
+                  same_posting_amount pa pa'.
+Proof. exact posting_amount_fmt. Qed.
+Print Assumptions C05_rt_posting_amount.
+
+Theorem C05_rt_metadata_line : forall fuel m k, wf_metadata m = true ->
+  (length (print_metadata m) <= fuel)%nat ->
+  line_metadata fuel ([59; 32] ++ print_metadata m ++ 10 :: k) = POk m k.
+Proof. exact line_metadata_fmt. Qed.
+Print Assumptions C05_rt_metadata_line.
+
+Theorem C05_rt_metadata_block : forall fuel ms k, forallb wf_metadata ms = true -> follow_block k ->
+  (length (10%N :: flat_map meta_line ms ++ k) <= fuel)%nat ->
+  block_metadata fuel (10 :: flat_map meta_line ms ++ k) = POk ms k.
+Proof. exact block_metadata_fmt. Qed.
+Print Assumptions C05_rt_metadata_block.
+
+Theorem C05_rt_account : forall fuel a k, wf_account a = true -> follow_account k ->
+  (length a <= fuel)%nat ->
+  exists sp, posting_account fuel (a ++ k) = POk (a, sp) (skip_sp k).
+Proof. exact posting_account_fmt. Qed.
+Print Assumptions C05_rt_account.
+
+Theorem C05_rt_posting : forall width fuel p k, wf_posting p = true -> follow_block k ->
+  (length (print_posting width p ++ k) <= fuel)%nat ->
+  exists p' sps,
+    preceded posting_indent (cut_err (posting fuel)) (print_posting width p ++ k) = POk (p', sps) k /\
+    same_posting p p'.
+Proof. exact posting_item_fmt. Qed.
+Print Assumptions C05_rt_posting.
+
+Theorem C05_rt_transaction : forall width fuel t k, wf_txn t = true -> follow_txn k ->
+  (length (print_txn width t ++ k) <= fuel)%nat ->
+  exists t' sps, transaction fuel (print_txn width t ++ k) = POk (t', sps) k /\ same_txn t t'.
+Proof. exact transaction_fmt. Qed.
+Print Assumptions C05_rt_transaction.
+
+(* every entry (transaction, comment, apply tag, end apply tag, include, account and commodity
+   declarations), followed by the blank line `format` writes after it *)
+Theorem C05_rt_entry : forall width fuel e k, wf_entry e = true ->
+  (length (print_entry width e ++ 10%N :: k) <= fuel)%nat ->
+  exists e' sps, parse_ledger_entry fuel (print_entry width e ++ 10 :: k) = POk (e', sps) (10 :: k) /\
+                 same_entry e e'.
+Proof. exact entry_fmt. Qed.
+Print Assumptions C05_rt_entry.
+
+(* ---- the whole text ---- *)
+Theorem C05_roundtrip : forall width es, forallb wf_entry es = true ->
+  exists es', parse_ledger (format_entries width es) = LOk es' /\ same_meaning es (map e_entry es').
+Proof. exact format_roundtrip. Qed.
+Print Assumptions C05_roundtrip.
+
+(* entries with the same meaning are printed the same *)
+Theorem C05_same_meaning_same_text : forall width es es',
+  same_meaning es es' -> format_entries width es' = format_entries width es.
+Proof. exact same_meaning_format. Qed.
+Print Assumptions C05_same_meaning_same_text.
+
+(* formatting preserves meaning: for a text that parses into well-formed entries, the formatted
+   text parses to entries with the same meaning *)
+Theorem C05_format_preserves_partial : forall width s es,
+  parse_ledger s = LOk es -> forallb wf_entry (map e_entry es) = true ->
+  exists es', parse_ledger (format_entries width (map e_entry es)) = LOk es' /\
+              same_meaning (map e_entry es) (map e_entry es').
+Proof. exact format_preserves. Qed.
+Print Assumptions C05_format_preserves_partial.
+
+(* formatting formatted text returns it unchanged *)
+Theorem C05_format_idempotent_partial : forall width s t,
+  format_text width s = Some t ->
+  (forall es, parse_ledger s = LOk es -> forallb wf_entry (map e_entry es) = true) ->
+  format_text width t = Some t.
+Proof. exact format_idempotent. Qed.
+Print Assumptions C05_format_idempotent_partial.
